@@ -244,11 +244,12 @@ var traceCases []string
 
 // crashRun is what one (operation, crash point) run leaves behind.
 type crashRun struct {
-	eng    *MemEngine
-	total  int
-	err    error
-	during string        // class of the storage call the crash fell on
-	trace  *JournalTrace // storage events on the pool's branch journal (atomic engine only)
+	eng     *MemEngine
+	total   int
+	err     error
+	during  string        // class of the storage call the crash fell on
+	trace   *JournalTrace // storage events on the pool's branch journal (atomic engine only)
+	classes []string
 }
 
 func runWithCrash(w *world, op crashOp, k int) crashRun {
@@ -256,11 +257,15 @@ func runWithCrash(w *world, op crashOp, k int) crashRun {
 	var mu sync.Mutex
 	n, crashed := 0, false
 	lastCrashClass := ""
+	var classes []string // k == 0: the class of every storage operation of the fault-free run
 	var curTrace *JournalTrace
 	v := eng.View(func(sop StorageOp) error {
 		mu.Lock()
 		defer mu.Unlock()
 		n++
+		if k == 0 && !crashed {
+			classes = append(classes, pathClass(sop))
+		}
 		if crashed || (k > 0 && n >= k) {
 			if !crashed {
 				lastCrashClass = pathClass(sop)
@@ -287,6 +292,7 @@ func runWithCrash(w *world, op crashOp, k int) crashRun {
 	}
 	mu.Lock()
 	n = 0
+	classes = nil
 	mu.Unlock()
 	cenv := &LakeEnv{Eng: v, Root: root, API: lakeapi.FromRoot(root), URI: LakeURI()}
 	err = Safely(func() error { return op.run(cenv, w) })
@@ -294,7 +300,7 @@ func runWithCrash(w *world, op crashOp, k int) crashRun {
 	crashed = true // the process is dead: stray goroutines must not write any more
 	total, during := n, lastCrashClass
 	mu.Unlock()
-	return crashRun{eng: eng, total: total, err: err, during: during, trace: curTrace}
+	return crashRun{eng: eng, total: total, err: err, during: during, trace: curTrace, classes: classes}
 }
 
 // followUp runs follow-up operations on the crashed storage through a fresh
@@ -452,7 +458,28 @@ func crashCampaign(res *Result, fileMode bool, opFilter func(string) bool, sampl
 		}
 		post := observe(r0.eng.Clone())
 		res.CountN("storage_ops_"+op.name+"_"+mode, r0.total)
+		chosen := map[int]bool{}
 		for _, k := range sample(r0.total) {
+			chosen[k] = true
+		}
+		// whatever the sampling: every crash point at or right after a mutating call on a
+		// data, seek-index or vector file (files written in place before the commit point)
+		for i, cl := range r0.classes {
+			if strings.HasSuffix(cl, ":vector") || strings.HasSuffix(cl, ":data-object") || strings.HasSuffix(cl, ":seek-index") {
+				if strings.HasPrefix(cl, "put") || strings.HasPrefix(cl, "write") || strings.HasPrefix(cl, "close") {
+					chosen[i+1] = true
+					if i+2 <= r0.total {
+						chosen[i+2] = true
+					}
+				}
+			}
+		}
+		var ks []int
+		for k := range chosen {
+			ks = append(ks, k)
+		}
+		sort.Ints(ks)
+		for _, k := range ks {
 			points = append(points, point{op, k, r0.total, post})
 		}
 	}
